@@ -173,7 +173,7 @@ def families(tier: str) -> list[Family]:
     add(Family("concat", "concat", [p.LISTS + [MISSING, "a"], [[], [1], ["a", [2]], [None, {"k": 1}], "a"]]))
     add(Family("map", "map", [lists([{"k": 1}, {"k": "a"}, {"k": None}, {}, {"j": 2}, {"k": [1]}], n4 - 1) + [[1, {"k": 1}]],
                               ["k", "j"]]))
-    wr_elems = [{"k": 1}, {"k": 2}, {"k": "a"}, {"k": None}, {"k": False}, {"k": True}, {"k": 0}, {"k": ""}, {}]
+    wr_elems = [{"k": 1}, {"k": 2}, {"k": "a"}, {"k": None}, {"k": False}, {"k": True}, {"k": 0}, {"k": ""}, {"k": "2"}, {}]
     for f in ("where", "reject"):
         add(Family(f, f, [lists(wr_elems, n4 - 1) + [[1, {"k": 2}], [{"k": 0.0}]], ["k"], [OMIT, 2, "a", 1, None]]))
 
@@ -297,8 +297,13 @@ def run_case(case: dict[str, Any]) -> dict[str, Any]:
 def violation_of(case: dict[str, Any], fail: tuple[str, str, str], src: str) -> dict[str, Any]:
     clause, feature, msg = fail
     f = "split|join" if case["f"] == "split_join" else ("reverse" if case["f"] == "reverse_text" else case["f"])
+    parts = feature.split(":")
+    sig = {"clause": clause, "filter": f, "feature": ":".join(x for x in parts if not x.startswith("exc=")) or "any"}
+    for x in parts:
+        if x.startswith("exc="):
+            sig["exc"] = x[4:]
     return {
-        "signature": {"clause": clause, "filter": f, "feature": feature},
+        "signature": sig,
         "what": f"{msg}  [template {src} ; x={case['x']!r} args={case['a']!r} kw={case['kw']!r}; "
                 f"clause '{clause}': {K.CLAUSES.get(clause, '?')}]",
         "case": case,
